@@ -819,6 +819,14 @@ def r07l(ctx, run):
         raise LookupError("nested comparisons with a recorded operand: %d" % n)
 
 
+def r07m(ctx, run):
+    """an enum declaration that passes the checker gives Cranelift's Switch distinct entries: the numbering loop of const_ty evaluated on every small
+    enum shape (automatic and hand-written discriminants mixed) never gives two variants one value - there is no diagnostic for that, and the code
+    generator panics when an exhaustive switch sets the same entry twice (shared with C11 R11.d)"""
+    import c11
+    c11.r11d(ctx, run)
+
+
 def rules(ctx):
     return [
         Rule("R07.a", "the error gate (both diagnostic sources, exit 1) and the unsafe assert dominate every code-generation call; comptime evaluation is guarded", 12, r07a),
@@ -829,6 +837,7 @@ def rules(ctx):
         Rule("R07.l", "a nested comparison is handed the address of an aggregate component and the loaded value of a scalar one (behind a pointer, in a struct)", 10, r07l),
         Rule("R07.k", "array -> slice is accepted only when the element representation is kept (the slice aliases the array's memory)", 1, r07k),
         Rule("R07.i", "== / != on aggregates: every component type the comparison recurses into has a code-generator arm (checker and generator evaluated one level deep)", 60, r07i),
+        Rule("R07.m", "an accepted enum declaration has pairwise distinct discriminants (no diagnostic exists for a clash and the code generator panics on one; shared with C11 R11.d)", 2, r07m),
         Rule("R07.j", "nested bodies (lambda, comptime) set the enclosing params, scopes and labels aside: a jump to an outer label is reported, not compiled (shared with C05 R05.d)", 4, r07j),
         Rule("R07.g", "get_const's classification per expression kind: Unknown (= stay silent) only where an error was already reported (shared with C15 R15.b)", 60, r07g),
         Rule("R07.f", "the common type of a branch that always jumps and any other branch never wraps `noeval` in a constructor (no code-generator support, no diagnostic)", 60, r07f),
